@@ -52,7 +52,7 @@ AWriteThrough(k) ==
 \* recursive operator stays shallow with the real header constants)
 AReadFrom(total, srcErr) ==
     /\ total <= 40 * w.buf + 40
-    /\ LET r == ReadLoop(w, d, total, srcErr, pos, <<>>, 0, TRUE)
+    /\ LET r == DoReadFrom(w, d, total, srcErr, pos)
         e == [Ev("ReadFrom", total, r.n, r.err, r.out, 0, d, r.d, r.w) EXCEPT !.k = total]
              @@ [total |-> total, srcErr |-> srcErr]
        IN Step(e, r.w, r.d, pos + r.n, r.hdrfits)
